@@ -813,7 +813,13 @@ impl MigrationState {
             // supplies: a consumer broadcasting a stored transaction cannot produce a different
             // one, and being able to pass a mismatched id was a way to lose track of a
             // transaction that is on chain.
-            tx.state = MigrationTxState::Broadcast { txid: tx.txid };
+            //
+            // A transaction already recorded as mined stays mined: a late or repeated broadcast
+            // report must not move it backwards through its lifecycle (only a chain rollback,
+            // `truncate_to_height`, un-mines a transaction).
+            if !matches!(tx.state, MigrationTxState::Mined { .. }) {
+                tx.state = MigrationTxState::Broadcast { txid: tx.txid };
+            }
         }
         self.recompute_status();
     }
